@@ -362,6 +362,42 @@ TABLE = [
  ("C19-hll-import-new-key-suffix", "C19", "/tmp/wt6-C19", 2, ["C19"],
   "HyperLogLogRedis.Import builds its new key as <exported key>_ (an empty slice of the random string).",
   "two different sketches that both import, under new keys, documents of the same origin: they share one register list"),
+ ("C07-cuckoo-export-nested-rlock", "C07", "/tmp/wt7-C07", 1, ["C07"],
+  "CuckooFilter.Length and Export take RLock, and Export reads the length through the public Length(): a nested read lock.",
+  "a writer (Insert/Remove) starts waiting for the lock between Export's two RLock acquisitions: Export, the writer and everything after them block for ever"),
+ ("C07-cms-count-shared-scratch-under-rlock", "C07", "/tmp/wt7-C07", 2, ["C07"],
+  "CountMinSketch.Update and Count hash into a per-sketch scratch buffer; Count was downgraded to RLock.",
+  "two concurrent Count calls for different keys on a frozen sketch overwrite each other's positions"),
+ ("C09-keygen-seeded-per-second", "C09", "/tmp/wt7-C09", 1, ["C09", "C19"],
+  "The random key generator is seeded with time.Now().Unix() instead of UnixNano().",
+  "two OS processes started in the same second draw the same 'random' keys: the second one's structures land on the first one's"),
+ ("C09-bloom-metadata-unclamped-hashes", "C09", "/tmp/wt7-C09", 2, ["C09"],
+  "NewRedisBloomFilterWithParameters stores the raw numHashes (0 for lax error rates) in the metadata while the handle uses max(.,1).",
+  "error rate above ~0.62: a re-attached handle has 0 hashes, answers true to everything and loses its inserts"),
+ ("C10-cuckoo-redis-import-shares-metadata-key", "C10", "/tmp/wt7-C10", 1, ["C10", "C19"],
+  "CuckooFilterRedis.Import with new keys regenerates only the data key and takes the metadata key from the document.",
+  "an Insert or Remove on the copy after the import moves the original's Length / re-attachment"),
+ ("C10-redis-getmatrix-32bit-cells", "C10", "/tmp/wt7-C10", 2, ["C10"],
+  "CountMinSketchRedis.getMatrix parses cells with ParseUint(c, 10, 32).",
+  "a cell at or above 2^32: Export of the sketch fails, Top-K Export writes a null matrix and Import panics"),
+ ("C12-mem-merge-copies-row-headers", "C12", "/tmp/wt7-C12", 1, ["C12"],
+  "In-memory Merge into a never-updated receiver copies the argument's matrix with copy(): the rows are shared afterwards.",
+  "a never-updated receiver merged with B, then an update on either side or a second merge"),
+ ("C12-redis-merge-del-before-read", "C12", "/tmp/wt7-C12", 2, ["C12", "C09"],
+  "The Redis merge script deletes the receiver's row before it reads the argument's row.",
+  "receiver and argument share their Redis key: Merge(A, A), a second handle of the same sketch, or an import that kept the key"),
+ ("C16-bloom-insert-through-shared-scratch-key", "C16", "/tmp/wt7-C16", 1, ["C16"],
+  "BitSetRedis.insertMulti stages its bits in one scratch key per filter, ORs it in with BITOP and deletes it.",
+  "one client's DEL lands between another client's staging pipeline and its BITOP"),
+ ("C16-topk-redis-zaddnx", "C16", "/tmp/wt7-C16", 2, ["C16"],
+  "TopKRedis.Insert uses ZADD NX.",
+  "two clients insert the same element and both find it absent before either adds it: the later, larger count is dropped"),
+ ("C17-bitset-redis-equals-whole-bytes", "C17", "/tmp/wt7-C17", 1, ["C17"],
+  "BitSetRedis.equals compares GETRANGE 0 size/8-1: the last partial byte is never compared.",
+  "a size not divisible by 8 and two filters differing only in the last size%8 bits"),
+ ("C17-cms-redis-equals-and-guard", "C17", "/tmp/wt7-C17", 2, ["C17"],
+  "CountMinSketchRedis.Equals rejects only when rows AND columns differ.",
+  "sketches differing in exactly one dimension: 2x8 equals 3x8 (one direction only)"),
 ]
 
 
